@@ -42,8 +42,10 @@ func (b *Bar) SortEvents() {
 	b.Events = evts
 }
 
+// Len returns the length of the bar in 32th notes.
+// The multiplication is done in a wider type: numerator * 32 overflows uint8 for numerators >= 8.
 func (b Bar) Len() uint8 {
-	return b.TimeSig[0] * 32 / b.TimeSig[1]
+	return uint8(uint16(b.TimeSig[0]) * 32 / uint16(b.TimeSig[1]))
 }
 
 func (b *Bar) barPos(absTicks int64, ticks smf.MetricTicks) uint8 {
